@@ -515,13 +515,6 @@ Qed.
 
 End SPEC.
 
-Print Assumptions part_constant.
-Print Assumptions part_verbatim.
-Print Assumptions command_without_parentheses.
-Print Assumptions command_with_arguments.
-Print Assumptions command_with_nonempty_arguments.
-Print Assumptions command_with_empty_parentheses.
-Print Assumptions command_line.
 
 (* ---------- patching: inline texts and movements become labels ---------- *)
 Lemma set_nth_spec : forall a (l : list text) v, (a < List.length l)%nat ->
@@ -920,8 +913,6 @@ Proof.
 Qed.
 
 End FINAL.
-Print Assumptions inline_arguments_become_labels.
-Print Assumptions plain_command_final_line.
 
 (* ---------- a straight-line stretch of command statements ---------- *)
 Record cmdsrc := { cs_name : token; cs_args : option (token * arglist * token) }.
@@ -1138,10 +1129,6 @@ Proof.
 Qed.
 
 End BLOCK.
-Print Assumptions command_statement_without_parentheses.
-Print Assumptions command_statement_with_arguments.
-Print Assumptions straight_line_commands.
-Print Assumptions block_of_commands.
 
 (* ---------- the moves(...) hypothesis holds for plain movement lists ---------- *)
 Inductive mstep :=
@@ -1216,7 +1203,6 @@ Proof.
   rewrite (steps_run steps W f clo R [] Hc ltac:(lia)). reflexivity.
 Qed.
 End MOVES.
-Print Assumptions plain_moves_accepted.
 
 (* ---------- a stretch of commands, after hoisting and patching ---------- *)
 Lemma apply_patches_foreign : forall ps c, (forall i a l, In (i, a, l) ps -> i <> Ast.cid c) -> apply_patches ps c = Some c.
@@ -1347,7 +1333,6 @@ Proof.
       rewrite (cmd_imp_M _ _ _ _ H). exact Hn.
 Qed.
 End HOIST.
-Print Assumptions stretch_hoisted.
 
 (* a block (for instance a script body) made of command statements: what the parser returns for it, hoisted and patched the way
    [parse_tops] does it for a script, is the list of its commands, in order, with the arguments described by [arg_of] *)
@@ -1374,7 +1359,6 @@ Proof.
   rewrite <- HA. apply add_implicit_ext; cbn [impadd idT idM imp0]; apply app_nil_r.
 Qed.
 End BODY.
-Print Assumptions block_of_commands_hoisted.
 
 (* ---------- the hypotheses are satisfiable: a concrete command ---------- *)
 Section EXAMPLE.
@@ -1555,5 +1539,3 @@ Proof.
   exists args'. split; [unfold pcmd; rewrite EA; reflexivity|exact LA].
 Qed.
 End BOUNDS.
-Print Assumptions command_inline_data_in_range.
-Print Assumptions patching_keeps_command.
